@@ -613,6 +613,98 @@ def body_intersect(case, ctx):
                       LA.same_span_defect(r, true), tol * np.linalg.cond(F))
 
 
+@st.composite
+def generic_complex_matrix(draw, n):
+    """invertible complex n x n matrix with condition number <= 4: U1 diag(r e^{i phi}) U2 with
+    U1, U2 products of complex Givens rotations (genuinely complex in every entry)"""
+    def unitary():
+        U = np.eye(n, dtype=complex)
+        for _ in range(2 * n):
+            if n < 2:
+                break
+            i = draw(st.integers(0, n - 2))
+            j = draw(st.integers(i + 1, n - 1))
+            th = draw(fl(0.2, 1.3))
+            al = draw(fl(-math.pi, math.pi))
+            G = np.eye(n, dtype=complex)
+            G[i, i] = G[j, j] = math.cos(th)
+            G[i, j] = -math.sin(th) * np.exp(-1j * al)
+            G[j, i] = math.sin(th) * np.exp(1j * al)
+            U = G @ U
+        return U
+    d = np.array([math.exp(draw(fl(-0.69, 0.69))) * np.exp(1j * draw(fl(-math.pi, math.pi)))
+                  for _ in range(n)])
+    M = unitary() @ np.diag(d) @ unitary()
+    return [[[float(z.real), float(z.imag)] for z in row] for row in M]
+
+
+@st.composite
+def intersect_complex_case(draw):
+    n = draw(st.integers(1, 4))
+    N = n + 1
+    k1 = draw(st.integers(1, N))
+    k2 = draw(st.integers(N - k1 + 1, N))
+    cnt = draw(st.sampled_from([0, 0, 2, 3]))       # 0 = a single (non-composite) pair
+    m = max(cnt, 1)
+    return dict(n=n, k1=k1, k2=k2, cnt=cnt,
+                S=[draw(generic_complex_matrix(N)) for _ in range(m)],
+                GA=[draw(generic_complex_matrix(k1)) for _ in range(m)],
+                GB=[draw(generic_complex_matrix(k2)) for _ in range(m)],
+                mode=draw(st.sampled_from(["elementwise", "pairwise"])))
+
+
+def _cspan_defect(r, a):
+    """relative distance of the rows of r from the (complex) row span of a"""
+    coef, *_ = np.linalg.lstsq(a.T, r.T, rcond=None)
+    res = r.T - a.T @ coef
+    return np.sqrt(np.sum(np.abs(res) ** 2, axis=0) / np.sum(np.abs(r) ** 2, axis=1))
+
+
+def body_intersect_complex(case, ctx):
+    """projective space over C (documented): the intersection of complex subspaces lies in
+    both.  A = G_A F[:k1], B = G_B F[N-k2:] for a complex frame F, so the intersection is
+    span F[N-k2:k1]."""
+    n, k1, k2, cnt, mode = case["n"], case["k1"], case["k2"], case["cnt"], case["mode"]
+    N = n + 1
+    d = k1 + k2 - N
+    m = max(cnt, 1)
+    F = [gen.cmat(x) for x in case["S"]]
+    if mode == "pairwise":
+        # one frame for all (different bases of the same two subspaces), so that every
+        # pair is transverse with a known intersection and known conditioning
+        F = [F[0]] * m
+    A = np.array([gen.cmat(case["GA"][t]) @ F[t][:k1] for t in range(m)])
+    B = np.array([gen.cmat(case["GB"][t]) @ F[t][N - k2:] for t in range(m)])
+    if cnt == 0:
+        A, B = A[0], B[0]
+    ctx.label("complex", "n=%d" % n, "n>=3" if n >= 3 else "", mode, "composite" if cnt else "",
+              "dim>=3" if n >= 3 else "")
+    R = projective.Subspace(A.copy()).intersect(projective.Subspace(B.copy()), broadcast=mode)
+    D = np.asarray(R.proj_data)
+    if cnt == 0:
+        want_shape = ()
+    else:
+        want_shape = (m,) if mode == "elementwise" else (m, m)
+    ctx.check(D.shape == want_shape + (d, N), "shape of the complex intersection", got=D.shape,
+              want=want_shape + (d, N))
+    for idx in np.ndindex(*want_shape):
+        ia = idx[0] if idx else None
+        ib = (idx[0] if mode == "elementwise" else idx[1]) if idx else None
+        a = A if cnt == 0 else A[ia]
+        b = B if cnt == 0 else B[ib]
+        r = D[idx]
+        cond = max(np.linalg.cond(a), np.linalg.cond(b), 1.0) * np.linalg.cond(F[ia or 0])
+        ctx.check(np.all(np.isfinite(r)), "finite")
+        ctx.small("complex: rows of the intersection lie in span(self)", _cspan_defect(r, a),
+                  1e-11 * cond)
+        ctx.small("complex: rows of the intersection lie in span(other)", _cspan_defect(r, b),
+                  1e-11 * cond)
+        if True:
+            true = F[ia or 0][N - k2:k1]
+            ctx.small("complex: equals the intersection known by construction",
+                      _cspan_defect(r, true), 1e-11 * cond)
+
+
 # ---------------------------------------------------------------------------
 @st.composite
 def eigen_spectrum(draw, N):
@@ -792,6 +884,8 @@ LAWS = [
         lambda l: "n=1" not in l, quick=250, thorough=1200, shards=(1, 4)),
     Law("intersect", intersect_case(), body_intersect, _nt, quick=150, thorough=800,
         shards=(2, 6)),
+    Law("intersect_complex", intersect_complex_case(), body_intersect_complex, lambda l: True,
+        quick=150, thorough=800, shards=(1, 3)),
     Law("eigenvector", eigvec_case(), body_eigvec, _nt_eig, quick=150, thorough=800,
         shards=(2, 6)),
     Law("diagonalize", diag_case(), body_diag, _nt_eig, quick=150, thorough=800,
